@@ -52,6 +52,20 @@ func Corpus() []*Hist {
 		// clean: uploaded files sharing chunks (one with a repeated chunk), delete one, then the other
 		{Kind: "corpus-delete-clean-shared", Base: baseKey, Cap: 100, Files: []FileSpec{fa("a.bin", 0, 0, 1), fa("c.bin", 1, 3)}, Ops: []Op{
 			{K: "upload", F: 0, Pin: true}, {K: "upload", F: 1}, {K: "delete", F: 0}, {K: "delete", F: 1}}},
+		// seeded change C12-1 (setPin's gc counter decrement must be a DIRECT write): every chunk of a cached file is pinned by ONE
+		// Set(ModeSetPin, a1..an) under the file context; the file leaves the gc index; cache pressure; the run must not touch it
+		{Kind: "corpus-pinset-whole-cached-file", Base: baseKey, Cap: 4, Files: []FileSpec{A, fa("c.bin", 3)}, Ops: []Op{
+			{K: "fetchpyr", F: 0}, {K: "fetch", F: 0, Leaves: all(3)}, {K: "pinset", F: 0},
+			{K: "fetchpyr", F: 1}, {K: "fetch", F: 1, Leaves: all(1)}, {K: "gc"}, {K: "unpinset", F: 0}, {K: "gc"}}},
+		// the same with ONE Put(ModePutRequestPin, chunks...) for the data chunks after the pyramid was pinned by one Set call
+		{Kind: "corpus-putpin-cached-file", Base: baseKey, Cap: 4, Files: []FileSpec{A, fa("c.bin", 3)}, Ops: []Op{
+			{K: "fetchpyr", F: 0}, {K: "pinset", F: 0, Leaves: []int{3, 4, 5, 6}}, {K: "putpin", F: 0, Leaves: all(3)},
+			{K: "fetchpyr", F: 1}, {K: "fetch", F: 1, Leaves: all(1)}, {K: "gc"}}},
+		// known (F-gc-unpins): only a SUBSET of the cached file's chunks is pinned by one Set call: the file stays a candidate, the
+		// pinned chunks go with it
+		{Kind: "corpus-pinset-subset-cached-file", Base: baseKey, Cap: 4, Files: []FileSpec{A, fa("c.bin", 3)}, Ops: []Op{
+			{K: "fetchpyr", F: 0}, {K: "fetch", F: 0, Leaves: all(3)}, {K: "pinset", F: 0, Leaves: []int{0, 2}},
+			{K: "fetchpyr", F: 1}, {K: "fetch", F: 1, Leaves: all(1)}, {K: "gc"}}},
 		// DELETE of a bare multi-chunk reference of which only the root chunk is stored: the manifest probe of the
 		// traversal needs the whole content -> 500, nothing changes (minimised correspondence disagreement)
 		{Kind: "corpus-delete-bare-root-only", Base: baseKey, Cap: 100, Files: []FileSpec{fb("b", 3, 1)}, Ops: []Op{
@@ -122,6 +136,28 @@ func Generate(r *hx.Rand) *Hist {
 			cached[f], present[f] = true, true
 		case x < 50:
 			h.Ops = append(h.Ops, Op{K: "read", F: f})
+		case x < 53:
+			// one Set(ModeSetPin) / Put(ModePutRequestPin) call over all or some chunks of a (mostly cached) file
+			for k := 0; k < 3 && !cached[f]; k++ {
+				f = r.Intn(nf)
+			}
+			op := Op{K: "pinset", F: f}
+			if r.Chance(1, 3) {
+				op.Leaves = []int{r.Intn(8), r.Intn(8), r.Intn(8)}
+			}
+			if r.Chance(1, 6) {
+				op.K = "putpin"
+			}
+			if r.Chance(1, 8) {
+				op.NoCtx = true
+			}
+			h.Ops = append(h.Ops, op)
+		case x < 55:
+			op := Op{K: "unpinset", F: f, NoCtx: r.Chance(1, 4)}
+			if r.Chance(1, 2) {
+				op.Leaves = []int{r.Intn(8), r.Intn(8)}
+			}
+			h.Ops = append(h.Ops, op)
 		case x < 58:
 			h.Ops = append(h.Ops, Op{K: "pin", F: f})
 		case x < 62:
